@@ -32,6 +32,30 @@ MERGE = 'M'
 FEAS_TIMEOUT_MS = 5000
 
 
+def _conjuncts(t):
+    if z3.is_and(t):
+        out = []
+        for c in t.children():
+            out.extend(_conjuncts(c))
+        return out
+    return [t]
+
+
+def _has_quantifier(t):
+    seen = set()
+    todo = [t]
+    while todo:
+        x = todo.pop()
+        i = x.get_id()
+        if i in seen:
+            continue
+        seen.add(i)
+        if z3.is_quantifier(x):
+            return True
+        todo.extend(x.children())
+    return False
+
+
 class PathState:
     def __init__(self, prefix, stats):
         self.prefix = list(prefix)
@@ -52,6 +76,8 @@ class PathState:
         self.used_contracts = set()
         self.used_models = set()
         self.unknown_feasibility = 0
+        self.side_conditions = []  # stack: in-range conditions collected inside quantifier bodies
+        self.fresh_log = []        # every fresh constant, in creation order (for skolemisation in quantifiers)
         self.no_fork = 0           # >0 inside quantifier bodies: a real fork is not allowed
         self.known = {}            # z3 term id -> list of (frozenset(scope ids), bool): entailed truth values
         self.on_fact = None        # hook(term): called when a fact is added to the context (equality learning)
@@ -63,13 +89,19 @@ class PathState:
         return base if n == 0 else '%s!%d' % (base, n)
 
     def fresh_int(self, base):
-        return z3.Int(self.fresh_name(base))
+        c = z3.Int(self.fresh_name(base))
+        self.fresh_log.append(c)
+        return c
 
     def fresh_bool(self, base):
-        return z3.Bool(self.fresh_name(base))
+        c = z3.Bool(self.fresh_name(base))
+        self.fresh_log.append(c)
+        return c
 
     def fresh_str(self, base):
-        return z3.String(self.fresh_name(base))
+        c = z3.String(self.fresh_name(base))
+        self.fresh_log.append(c)
+        return c
 
     # ---- assumptions ------------------------------------------------------------
     def _scoped(self, t):
@@ -94,7 +126,12 @@ class PathState:
 
     def _add(self, t):
         self.pc.append(t)
-        self.solver.add(t)
+        # The feasibility solver only sees quantifier-free facts: satisfiability of quantified
+        # (string) formulas is where solvers get lost; dropping facts there only over-approximates
+        # the set of explored paths, the obligations are always proved from the full `pc`.
+        for c in _conjuncts(t):
+            if not _has_quantifier(c):
+                self.solver.add(c)
 
     def axiom(self, t):
         """Add an instance of a universally valid fact: holds in every context, so it is not scoped."""
@@ -105,7 +142,7 @@ class PathState:
         self.stats['feasibility_queries'] = self.stats.get('feasibility_queries', 0) + 1
         import time as _t
         t0 = _t.time()
-        r = self.solver.check(*(list(self.scopes) + list(extra)))
+        r = self.solver.check(*([x for x in self.scopes if not _has_quantifier(x)] + list(extra)))
         dt = _t.time() - t0
         if dt > 1.0:
             self.stats.setdefault('slow_queries', []).append((round(dt, 2), str(r), [str(e)[:200] for e in extra]))
@@ -164,7 +201,7 @@ class PathState:
                     self._record_known(t, can_t)
             if can_t and can_f:
                 if self.no_fork:
-                    raise Unsupported('case split inside a quantifier body')
+                    raise Unsupported('case split inside a quantifier body on %s' % str(t)[:300])
                 self.pending.append(self.decisions + [False])
                 d = True
             elif can_t:
@@ -213,6 +250,8 @@ class PathState:
         k = self._lookup_known(t)
         if k is not None:
             r = 'T' if k else 'N'
+        elif _has_quantifier(t):
+            r = 'U'
         elif self.must_hold(t):
             r = 'T'
             self._record_known(t, True)
